@@ -128,6 +128,7 @@ type verifSink struct {
 	writes  int
 	failAt  int // index of the Write call that fails (-1: never)
 	partial int // bytes accepted by the failing call
+	once    bool // only the failAt-th call fails; later calls succeed again
 	onWrite func(s *verifSink)
 }
 
@@ -136,7 +137,7 @@ var verifErrSink = io.ErrClosedPipe
 func (s *verifSink) Write(p []byte) (int, error) {
 	i := s.writes
 	s.writes++
-	if s.failAt >= 0 && i >= s.failAt {
+	if s.failAt >= 0 && i >= s.failAt && (i == s.failAt || !s.once) {
 		k := 0
 		if i == s.failAt {
 			k = s.partial
@@ -175,27 +176,35 @@ func verifDecoded(stream []byte) ([]byte, []verifMember, bool) {
 	return out, ms, ok
 }
 
-func verifHeaderSettings(w *Writer) {
+func verifHeaderSettings(ws ...*Writer) {
 	if vrt.Param("hdr", 0) == 0 {
 		return
 	}
+	var name, comment string
+	var extra []byte
 	if vrt.Choice("name", 2) == 1 {
 		c := vrt.Byte("namechar")
 		vrt.Assume(c != 0)
-		w.Name = string([]byte{c})
+		vrt.Assume(c < 0x80) // gzip header strings: ASCII here (Latin-1 conversion is compress/gzip's)
+		name = string([]byte{c})
 	}
 	if vrt.Choice("comment", 2) == 1 {
 		c := vrt.Byte("commentchar")
 		vrt.Assume(c != 0)
-		w.Comment = string([]byte{c})
+		vrt.Assume(c < 0x80)
+		comment = string([]byte{c})
 	}
 	if vrt.Choice("extra", 2) == 1 {
 		// one well-formed subfield with one data byte (identifier is not BC)
 		a, b := vrt.Byte("si1"), vrt.Byte("si2")
 		vrt.Assume(!(a == 'B' && b == 'C'))
-		w.Extra = []byte{a, b, 1, 0, vrt.Byte("sdata")}
+		extra = []byte{a, b, 1, 0, vrt.Byte("sdata")}
 	}
-	w.OS = vrt.Byte("os")
+	os := vrt.Byte("os")
+	for _, w := range ws {
+		w.Name, w.Comment, w.OS = name, comment, os
+		w.Extra = append([]byte(nil), extra...)
+	}
 }
 
 // C08: every produced stream is a sequence of conformant BGZF members that
@@ -232,6 +241,7 @@ func VerifH_bgzf_deterministic() {
 	s2 := &verifSink{failAt: -1}
 	w1 := NewWriter(s1, 1)
 	w2 := NewWriter(s2, 2)
+	verifHeaderSettings(w1, w2)
 	CALLS := vrt.Param("CALLS", 2)
 	MAXW := vrt.Param("MAXW", 2*BlockSize+2)
 	ncalls := vrt.Choice("ncalls", CALLS+1)
